@@ -3,7 +3,7 @@
 \* Measured: see notes/C17.md
 CONSTANTS
   Seed = 1
-  Extra = 8
+  Extra = 6
   Cube = FALSE
   MaxEvolve = 3
   EvolveEvery = 6
